@@ -546,8 +546,23 @@ class JsonHistory(History):
         if self.filename and not os.path.exists(os.path.expanduser(self.filename)):
             meta["cmds"] = []
             meta["sessionid"] = str(self.sessionid)
-            with open(self.filename, "w", newline="\n", encoding="utf-8") as f:
-                xlj.ljdump(meta, f, sort_keys=True)
+            # Atomic write (temp file, then os.replace()), as in
+            # JsonHistoryFlusher.dump(): while the file is rewritten in place it
+            # is empty for a moment, and the garbage collector of another
+            # session collects empty files.
+            fd, tmpname = tempfile.mkstemp(
+                dir=os.path.dirname(self.filename), suffix=".json.tmp"
+            )
+            try:
+                with os.fdopen(fd, "w", newline="\n", encoding="utf-8") as f:
+                    xlj.ljdump(meta, f, sort_keys=True)
+                os.replace(tmpname, self.filename)
+            except OSError:
+                try:
+                    os.unlink(tmpname)
+                except OSError:
+                    pass
+                raise
 
             try:
                 sudo_uid = os.environ.get("SUDO_UID")
@@ -777,8 +792,23 @@ class JsonHistory(History):
                 meta = {"locked": True, "ts": [time.time(), None]}
             meta["cmds"] = []
             meta["sessionid"] = str(self.sessionid)
-            with open(self.filename, "w", newline="\n", encoding="utf-8") as f:
-                xlj.ljdump(meta, f, sort_keys=True)
+            # Atomic write (temp file, then os.replace()), as in
+            # JsonHistoryFlusher.dump(): while the file is rewritten in place it
+            # is empty for a moment, and the garbage collector of another
+            # session collects empty files.
+            fd, tmpname = tempfile.mkstemp(
+                dir=os.path.dirname(self.filename), suffix=".json.tmp"
+            )
+            try:
+                with os.fdopen(fd, "w", newline="\n", encoding="utf-8") as f:
+                    xlj.ljdump(meta, f, sort_keys=True)
+                os.replace(tmpname, self.filename)
+            except OSError:
+                try:
+                    os.unlink(tmpname)
+                except OSError:
+                    pass
+                raise
 
     def delete(self, pattern):
         """Deletes all entries in history which matches a pattern."""
